@@ -76,6 +76,7 @@ FeedLine(c, o, nl) ==
   /\ phase = "run" /\ fed < MaxLines /\ NlAt(fed)
   /\ IF Defect = "read_before_callback" THEN ~eof ELSE ReadOK
   /\ (OpenAt(fed) /\ ~o) => c >= 1          \* closing the open statement finishes it
+  /\ (~nl \/ fed + 1 = MaxLines) => ~o      \* scope: programs that parse (the last line closes everything)
   /\ lines' = Append(lines, [done |-> DoneAt(fed) + c, open |-> o, nl |-> nl])
   /\ fed' = fed + 1 /\ prompted' = FALSE
   /\ hist' = Append(hist, [e |-> "read", pending |-> Pending, open |-> OpenAt(fed), prompted |-> prompted, fed |-> fed])
